@@ -306,4 +306,47 @@ theorem bi_set_idx (x : UInt16) (v : UInt8) : flagBlockIndependence (setBlockSiz
   have : Nat.testBit 36863 5 = true := by decide
   simp [this]
 
+/-! The block-size index is read back as it was stored (`BlockSizeIndexSet` then `BlockSizeIndex`), whatever the
+word held before. -/
+
+theorem n28672' : (~~~(28672 : UInt16)).toNat = 36863 := by decide
+
+/-- `DescriptorFlags.BlockSizeIndex` as arithmetic -/
+theorem idx_arith (y : UInt16) : (flagBlockSizeIndex y).toNat = y.toNat / 4096 % 8 := by
+  rw [← get_idx_gen, Lz4V.Proofs.Header.blockSizeIndex_eq]
+
+/-- reading back the index that `BlockSizeIndexSet` stored: the low three bits of the argument -/
+theorem get_set_idx (x : UInt16) (v : UInt8) : (flagBlockSizeIndex (setBlockSizeIndex x v)).toNat = v.toNat % 8 := by
+  rw [idx_arith]
+  unfold setBlockSizeIndex
+  rw [UInt16.toNat_or, UInt16.toNat_and, n28672', UInt16.toNat_shiftLeft, UInt16.toNat_and, UInt8.toNat_toUInt16]
+  have h12 : (12 : UInt16).toNat % 16 = 12 := by decide
+  have h7 : (7 : UInt16).toNat = 2^3 - 1 := by decide
+  rw [h12, h7, Nat.and_two_pow_sub_one_eq_mod]
+  have hv : v.toNat % 2^3 < 8 := Nat.mod_lt _ (by decide)
+  have hsh : (v.toNat % 2^3) <<< 12 % 65536 = (v.toNat % 2^3) * 4096 := by
+    rw [Nat.shiftLeft_eq]; omega
+  show ((x.toNat &&& 36863) ||| (v.toNat % 2^3) <<< 12 % 2^16) / 4096 % 8 = v.toNat % 8
+  have e16 : (2:Nat)^16 = 65536 := by decide
+  rw [e16, hsh]
+  have e4096 : (4096 : Nat) = 2^12 := by decide
+  rw [e4096, ← Nat.shiftRight_eq_div_pow, Nat.shiftRight_or_distrib, Nat.shiftRight_and_distrib]
+  have c : (36863 : Nat) >>> 12 = 8 := by decide
+  rw [c, Nat.shiftRight_eq_div_pow ((v.toNat % 2^3) * 2^12), Nat.mul_div_cancel _ (by decide : 0 < 2^12)]
+  have e8 : (8 : Nat) = 2^3 := by decide
+  rw [e8]
+  apply Nat.eq_of_testBit_eq; intro i
+  rw [Nat.testBit_mod_two_pow, Nat.testBit_or, Nat.testBit_and, Nat.testBit_two_pow]
+  by_cases hi : i < 3
+  · have h3 : ¬ (3 = i) := by omega
+    simp [hi, h3]
+  · have hp : (2:Nat)^3 ≤ 2^i := Nat.pow_le_pow_right (by decide) (by omega)
+    have hb : (v.toNat % 2^3).testBit i = false := Nat.testBit_lt_two_pow (by omega)
+    simp [hi, hb]
+
+/-- every index `lz4block.Index` can return is below 8, so it is read back unchanged -/
+theorem get_set_idx_small (x : UInt16) (v : UInt8) (hv : v.toNat < 8) :
+    (flagBlockSizeIndex (setBlockSizeIndex x v)).toNat = v.toNat := by
+  rw [get_set_idx]; omega
+
 end Lz4V.Props.Leaf
